@@ -29,6 +29,16 @@ def run(chk, tier):
                 for _ in range(reps):
                     ks = [r.bytes(L) for _ in range(3)]
                     ops.append(f"zero {e['name']} {route} " + " ".join(hx(k) for k in ks))
+        if e["name"] in registry.VAR_LENS:
+            # instances keyed with keys of DIFFERENT lengths: state derived from the key length (round-count flags,
+            # effective-length fields) differs between them and must be wiped too
+            lens = registry.VAR_LENS[e["name"]]
+            for route in ("new", "clone"):
+                for _ in range(reps + 2):
+                    ls = [lens[0], lens[r.below(len(lens))], lens[-1]]
+                    if r.below(2):
+                        ls = [lens[r.below(len(lens))] for _ in range(3)]
+                    ops.append(f"zero {e['name']} {route} " + " ".join(hx(r.bytes(L)) for L in ls))
     for fam, L in (("Aes128", 16), ("Aes192", 24), ("Aes256", 32), ("Kuznyechik", 32)):
         for route in ("c.from_e", "c.from_eref", "d.from_e", "d.from_eref", "c.clone_from_e", "d.clone_from_e"):
             for _ in range(reps):
